@@ -1,4 +1,5 @@
 import CollectionsC.Properties.C12Gen
+import CollectionsC.Properties.C12
 /-! # C12 — histories on the *translated text* of `src/cc_static_pool.c`
 
 `C12Gen` proves function by function that the definitions regenerated from the C source on every build
@@ -81,6 +82,16 @@ theorem gen_history_safe (b : Nat) (ops : List COp) (s : StaticPool) (m : Mem) (
     toCore (genRun b ops (ofCoreAt b s.core)).2.1 = (s.run (ops.map COp.toOp) m).2.1.core := by
   rw [gen_history_agrees b ops s m h]
   exact ⟨rfl, toCore_ofCoreAt _ _⟩
+
+/-- **C12 on the translated text**: the pointers returned by the chained generated calls are exactly
+the block-list spec's pointers shifted by the base address, for every history whose operations respect
+`OpOk` (the documented preconditions of `C12.history_refines`), and no call has undefined behaviour. -/
+theorem gen_history_refines (b : Nat) (ops : List COp) (s : StaticPool) (h : s.Inv) (hsz : s.core.size < sizeMod)
+    (hops : ∀ op ∈ ops.map COp.toOp, C12.OpOk s.core.size op) :
+    (genRun b ops (ofCoreAt b s.core)).1 = (s.abs.run (ops.map COp.toOp)).1.map (at_ b) ∧
+    (genRun b ops (ofCoreAt b s.core)).2.2 = false := by
+  rw [gen_history_agrees b ops s {} h]
+  exact ⟨by rw [(C12.history_refines _ s {} h hsz hops).1], rfl⟩
 
 /-- non-vacuity: an 8-byte pool at address 2 with one live 3-byte block; the chained translated calls
 `calloc(2,2)`, `malloc(6)` (does not fit), `free(last block)`, `malloc(1)`, `reset`, `malloc(8)` return
